@@ -8,6 +8,7 @@ import (
 	"path/filepath"
 	"runtime/debug"
 	"strings"
+	"sync/atomic"
 
 	"github.com/codenotary/immudb/embedded/sql"
 	"github.com/codenotary/immudb/embedded/store"
@@ -17,6 +18,7 @@ import (
 	"google.golang.org/protobuf/types/known/structpb"
 
 	"verifharness/internal/fw"
+	"verifharness/internal/hook"
 	"verifharness/internal/sth"
 )
 
@@ -60,15 +62,16 @@ func (adminUser) SQLPrivileges() []sql.SQLPrivilege {
 }
 
 type dbRun struct {
-	c    *fw.Ctx
-	sp   spec
-	root string
-	db   database.DB
-	rows int // rows expected in t1 (all written at ids >= the first cut)
+	c     *fw.Ctx
+	sp    spec
+	root  string
+	db    database.DB
+	rows  int // rows expected in t1 (all written at ids >= the first cut)
 	rows4 int // rows expected in t4 (constraints of every kind), -1 when the table could not be created
-	docs int
-	kv   map[string][]byte // KV entries written at ids >= the latest cut
-	step string
+	docs  int
+	kv    map[string][]byte // KV entries written at ids >= the latest cut
+	step  string
+	ddlN  int // columns added to table tr by DDL racing with the truncator's catalog copy
 }
 
 func (d *dbRun) opts() *database.Options {
@@ -314,8 +317,37 @@ func (d *dbRun) checkConstrained(when string) {
 	}
 }
 
-func (d *dbRun) truncate(cut uint64, label string) {
+// truncate runs the database truncator. conflicts > 0: a DDL statement of another client (ALTER TABLE tr ADD
+// COLUMN) commits between the snapshot and the commit of the truncator's catalog copy, conflicts times in a
+// row (at the hook point every precommit passes before taking the store lock; the DDL's own precommit is let
+// through). Whatever the truncator then does - give up with the conflict, or try again - the catalog must
+// keep working after truncation and restart.
+func (d *dbRun) truncate(cut uint64, label string, conflicts int) {
 	d.step = label
+	if conflicts > 0 {
+		var in atomic.Bool
+		var left atomic.Int32
+		left.Store(int32(conflicts))
+		injected := 0
+		hook.Install(&hook.Config{Seed: 1, Sites: map[string]bool{"store.precommit.beforeLock": true}, OnPoint: func(site string) {
+			if !in.CompareAndSwap(false, true) {
+				return
+			}
+			defer in.Store(false)
+			if left.Add(-1) < 0 {
+				return
+			}
+			d.ddlN++
+			if _, _, err := d.db.SQLExec(context.Background(), nil, &schema.SQLExecRequest{Sql: fmt.Sprintf("ALTER TABLE tr ADD COLUMN r%d INTEGER", d.ddlN)}); err == nil {
+				injected++
+			}
+		}})
+		defer func() {
+			hook.Uninstall()
+			d.c.Distinct(fmt.Sprintf("db/truncate/racing-ddl/asked=%d/committed=%d", conflicts, injected))
+			d.c.Count("db_ddl_committed_during_catalog_copy", int64(injected))
+		}()
+	}
 	before := vlogFiles(d.root)
 	err, ok := d.guard("truncator", func() error {
 		return database.NewVlogTruncator(d.db, sth.QuietLogger()).TruncateUptoTx(context.Background(), cut)
@@ -375,6 +407,7 @@ func runDBHistory(c *fw.Ctx, sp spec) {
 		"CREATE TABLE t1 (id INTEGER AUTO_INCREMENT, name VARCHAR[50], amount INTEGER, PRIMARY KEY id)",
 		"CREATE INDEX ON t1 (name)",
 		"CREATE TABLE t2 (k VARCHAR[20], v BLOB, PRIMARY KEY k)",
+		"CREATE TABLE tr (id INTEGER, PRIMARY KEY id)",
 	} {
 		if err := d.exec(s); err != nil {
 			c.Inconclusive("setup: " + s + ": " + err.Error())
@@ -431,21 +464,21 @@ func runDBHistory(c *fw.Ctx, sp spec) {
 		}
 	}
 	d.checkServing("before-truncation")
-	d.truncate(cut, "truncate-1")
+	d.truncate(cut, "truncate-1", sp.RacingDDL[0])
 	d.checkServing("after-truncation")
 	if !d.restart("restart-1") {
 		return
 	}
 	d.checkServing("after-truncation-and-restart")
 	// repeated truncation (same cut), then a later cut beyond more filler, restart again
-	d.truncate(cut, "truncate-1-again")
+	d.truncate(cut, "truncate-1-again", sp.RacingDDL[1])
 	cut2 := d.fill("b", 4*sp.IOConc)
 	if cut2 > 0 {
 		// rows / documents / keys written before cut2 may now be legitimately unreadable: start new expectations
 		if err := d.exec("CREATE TABLE t3 (id INTEGER AUTO_INCREMENT, s VARCHAR[30], PRIMARY KEY id)"); err != nil {
 			d.viol("db/sql-create-table-fails/after-truncation-and-restart", err.Error())
 		}
-		d.truncate(cut2, "truncate-2")
+		d.truncate(cut2, "truncate-2", sp.RacingDDL[2])
 		if d.restart("restart-2") {
 			d.step = "after-second-truncation-and-restart"
 			// the catalog (old and new tables, the collection) must still be usable for new data
